@@ -167,6 +167,20 @@ def run(chk: core.Check, tier: str, seed: int) -> None:
                           f"$.t[?@.zz {op} value(@.yy)]", f"$.o[?length(@.zz) {op} @[0]]", f"$.t[?value(@.a) {op} @.a]", f"$.t[?@.a {op} length(@)]"):
                     if tier != "quick" or rng.random() < 0.5:
                         recs.append(impl.rec_find(jp, q, doc, edoc=edoc))
+    # equality at depth: the same shape 40 levels down, differing (or not) only in the innermost leaf
+    def _nest(n, leaf, obj):
+        d = leaf
+        for i in range(n):
+            d = {"k": d} if (obj and i % 2) else [d]
+        return d
+
+    for n in (5, 40):
+        for la, lb in ((1, 1), (1, 1.0), (1, True), (1, 2), ("a", "a"), (None, False), ([], {}), (0, -0.0)):
+            for obj in (False, True):
+                doc = {"t": [{"l": _nest(n, la, obj), "r": _nest(n, lb, obj)}]}
+                edoc = core.enc_value(doc)
+                for op in ("==", "!=", "<="):
+                    recs.append(impl.rec_find(jp, f"$.t[?@.l {op} @.r]", doc, edoc=edoc))
     chk.notes["sibling_records"] = len(recs) - n_before
     if len(recs) - n_before < 50:
         raise core.MachineryError("the sibling documents produced no records")
